@@ -695,7 +695,8 @@ func checkC17(c *Ctx, rt *rapid.T) {
 		}
 		c.Stats.Probe("world-with-consecutive-33-63KB-trees")
 	}
-	if g.Rare(1, 5, "sharedsubtree") {
+	sharedSub := g.Rare(1, 3, "sharedsubtree")
+	if sharedSub {
 		// the same subtree as a direct entry of a tree and of one of that
 		// tree's descendants, holding the biggest blob: whichever path it is
 		// cited under must not depend on who gets there first
@@ -757,12 +758,15 @@ func checkC17(c *Ctx, rt *rapid.T) {
 	if forceTable {
 		fixed = []string{"-v"}
 	}
-	sizerCfg := g.Chance(1, 3, "sizerconfig")
+	sizerCfg := g.Chance(1, 3, "sizerconfig") && !sharedSub
 	if sizerCfg {
 		// output-shaping settings come from gitconfig only
 		w.Config.Global += "[sizer]\n\tnames = hash\n\tthreshold = 0\n\tjsonVersion = 2\n"
 	}
-	if !sizerCfg {
+	if sharedSub {
+		// the shared subtree is cited by path: names must be printed in full
+		fixed = append(fixed, "--names=full")
+	} else if !sizerCfg {
 		fixed = append(fixed, NamesArgs(g, "")...)
 		if g.Chance(1, 2, "verbose") {
 			fixed = append(fixed, "-v")
